@@ -437,6 +437,58 @@ func checkKVAfterFilter(doc any, docText string, prefix string) *Violation {
 	return nil
 }
 
+// checkKVContext: the id of an object does not depend on where in the path the
+// object is reached from: P.keyvalue().id evaluated at top level, inside a filter
+// over a variable, inside a filter over the triples of another object and
+// inside a filter over its own triples is one and the same number.
+var checkKVContextCase = register("c16.kvcontext", func(c KVCase) *Violation {
+	d, err := Decode(c.Doc, c.UseNumber)
+	if err != nil {
+		return nil
+	}
+	P := c.Path
+	top, _, _ := ParseSafe("strict " + P + ".keyvalue().id")
+	if top == nil {
+		return nil
+	}
+	a := RunQuery(context.Background(), top, d)
+	if a.Class != EOK || len(a.Items) == 0 {
+		return nil // P is not a non-empty object here
+	}
+	id := Render(a.Items[0], false)
+	for _, it := range a.Items {
+		if Render(it, false) != id {
+			return violf("strict %s.keyvalue().id on %s: the triples of one object carry different ids %v", P, c.Doc, RenderSeq(a.Items, false))
+		}
+	}
+	vars := exec.Vars{"v": float64(1), "o": map[string]any{"k": float64(1), "l": float64(2)}}
+	for _, ctx := range []struct {
+		path string
+		want string // "all": keeps every item of the unfiltered producer
+	}{
+		{"strict $v ? (" + P + ".keyvalue().id == " + id + ")", "strict $v"},
+		{"strict $o.keyvalue() ? (" + P + ".keyvalue().id == " + id + ")", "strict $o.keyvalue()"},
+		{"strict " + P + ".keyvalue() ? (@.id == " + P + ".keyvalue().id)", "strict " + P + ".keyvalue()"},
+		{"strict $ ? (exists($v ? (" + P + ".keyvalue().id == " + id + ")))", "strict $"},
+		{"strict $o.* ? (" + P + ".keyvalue().id == " + id + " && @ > 0)", "strict $o.*"},
+	} {
+		fp, e1, _ := ParseSafe(ctx.path)
+		up, e2, _ := ParseSafe(ctx.want)
+		if e1 != nil || e2 != nil {
+			return violf("harness: %q or %q does not parse: %v %v", ctx.path, ctx.want, e1, e2)
+		}
+		got := RunQuery(context.Background(), fp, d, exec.WithVars(vars))
+		all := RunQuery(context.Background(), up, d, exec.WithVars(vars))
+		if all.Class != EOK {
+			continue
+		}
+		if got.Class != EOK || len(got.Items) != len(all.Items) {
+			return violf("%s.keyvalue() has id %s at top level on %s, so %q must keep all %d item(s) of %q; Query returned %s", P, id, c.Doc, ctx.path, len(all.Items), ctx.want, got)
+		}
+	}
+	return nil
+})
+
 func TestC16(t *testing.T) {
 	ev := newEv(t, "C16")
 	c16Ev = ev
@@ -503,6 +555,10 @@ func TestC16(t *testing.T) {
 			for _, pre := range []string{"$[*]", "$", "$.a", "$.a[*]", "strict $.**"} {
 				kc := KVCase{Doc: c.Doc, Path: pre, UseNumber: c.UseNumber}
 				ev.Check(rt, "c16.kvfilter", kc, checkKVFilterCase(kc))
+			}
+			for _, pre := range []string{"$", "$.a", "$.b", "$[0]", "$.a[0]", "$.a.b", "$[1]"} {
+				kc := KVCase{Doc: c.Doc, Path: pre, UseNumber: c.UseNumber}
+				ev.Check(rt, "c16.kvcontext", kc, checkKVContextCase(kc))
 			}
 		}
 	})
